@@ -25,7 +25,9 @@ RULE = ('A case is a batch of graph-lab hypernym digraphs (as in C13: edge masks
         'graph functions (value must lie in the set of formula values over all lowest common '
         'hypernyms); symmetry, bounds, f(a,b)<=f(a,a) and the error conditions are checked on '
         'all graphs. Non-trivial graph: a pair with >=2 lowest common hypernyms, an a/s mix or '
-        'several part-of-speech classes; the class histogram counts graphs, not batches.')
+        'several part-of-speech classes; the class histogram counts graphs, not batches. Sub '
+        'split-lexicons: graphs of 2-6 nodes divided between a lexicon and an extension of it, '
+        'queried through a Wordnet over both, given weights, same oracle.')
 ASSUMPTIONS = [
     'formula values are asserted where C13 defines their ingredients: path/lch on every graph '
     'without simulate_root and on DAGs with it; wup/res/jcn/lin on DAGs',
@@ -475,7 +477,23 @@ def _two_lcs(tier):
                       (1, 6, 8, 10, 12, 9))   # many lexicons/rowids: varied Synset hashes
 
 
+@st.composite
+def _split_decorated(draw):
+    """A graph divided between a lexicon and an extension of it (see C13), given weights."""
+    from . import c13
+    d = draw(c13._split_graph())
+    d['D'] = draw(st.integers(1, 20))
+    d['ics'] = [draw(_ic(d))]
+    return d
+
+
+def _split(tier):
+    return G.batch_of(_split_decorated(), (1, 3, 4, 6))
+
+
 SUBS = [
+    Sub('split-lexicons', oracle, _classify, strategy=_split,
+        budget={'quick': 20, 'thorough': 200}, sample=_sample, purge_every=8, case_timeout=900),
     Sub('enum-n<=3', oracle, _classify, enumerate=_enum_small,
         exhaustive_note='all 530 labelled digraphs on 1-3 nodes in three variants (nouns with '
                         'computed weights; a/s mix and mixed classes with given weights); all '
